@@ -5,11 +5,14 @@ import TantivyModel.Model.Invert
 import TantivyModel.Model.PostingsCodec
 import TantivyModel.Model.Positions
 import TantivyModel.Model.TermInfoStore
+import TantivyModel.Model.BlockCursor
+import TantivyModel.Model.Recorder
 /-!
 Line protocol of the C07 model (see harness/src/props/c07.rs):
 
 * `vint_enc <n>` → hex; `vint_dec <hex>` → `<n> <consumed>` | `err`
 * `vint32_enc <n>` (serialize_vint_u32) → hex; `vint32_dec <hex>` (read_u32_vint_no_advance) → `<n> <len>` | `err`
+* `recycle <opt> <df1> <hex1> <A<k>|D|S<target>> <df2> <hex2>` → `<docs>|<tfs>` drained from a block cursor opened on list 1, moved, then reset to list 2
 * `tis_write <df:ps:pe:qs:qe;…>` → hex of the TermInfoStore bytes; `tis_get <hex> <ord>` → `df:ps:pe:qs:qe` | `err`
 * `numbits <n>`; `fn_to_id <n>`; `id_to_fn <i>`
 * `enc <opt> <docs> <tfs>` → hex of the term's postings bytes
@@ -17,6 +20,7 @@ Line protocol of the C07 model (see harness/src/props/c07.rs):
 * `seek <opt> <doc_freq> <hex> <program>` → doc after every op
 * `pos_enc <deltas>` → hex; `pos_read <hex> <offset> <len>` → values | `err`
 * `blocksearch <values> <target>` → index
+* `pipeline <opt> <corpus>` → same format as `invert`, computed through recorders → serializer → decoder
 * `invert <opt> <corpus>` → `<terms>|<total_num_tokens>|<fieldnorm ids>`
 -/
 namespace TantivyModel.Driver.C07
@@ -84,6 +88,24 @@ def handleInvert (o : String) (corpus : String) : String :=
   | some o, some c => showInverted o (invert c)
   | _, _ => "bad-op"
 
+/-- the modelled indexing pipeline, in the response format of `invert` -/
+def handlePipeline (o : String) (corpus : String) : String :=
+  match parseOpt o, parseCorpus corpus with
+  | some o, some c =>
+    let ix := Recorder.indexCorpus o c
+    let terms := termsOf Gen.Postings.POSITION_GAP c
+    let entries := terms.map (fun t =>
+      match ix.table t with
+      | none => (hexOfNats t).getD "bad" ++ "=missing"
+      | some r =>
+        match Recorder.readBack o (Recorder.serializeTerm o r) with
+        | none => (hexOfNats t).getD "bad" ++ "=unreadable"
+        | some ps => (hexOfNats t).getD "bad" ++ "=" ++ ",".intercalate (ps.map showPosting))
+    (if entries.isEmpty then "-" else ";".intercalate entries)
+    ++ "|" ++ toString ix.totalNumTokens ++ "|" ++
+    showNatList (c.map (fun d => FieldNorm.fieldnormId (Recorder.docTokenCount o d)))
+  | _, _ => "bad-op"
+
 def handle : List String → String
   | ["ping"] => "pong"
   | ["vint_enc", n] =>
@@ -112,6 +134,24 @@ def handle : List String → String
       | some (v, n) => toString v ++ " " ++ toString n
       | none => "err"
     | none => "bad-op"
+  | ["recycle", o, df1, h1, mv, df2, h2] =>
+    match parseOpt o, df1.toNat?, natsOfHex h1, df2.toNat?, natsOfHex h2 with
+    | some o, some df1, some b1, some df2, some b2 =>
+      let p0 := BlockPostings.open cfg o o df1 b1
+      let moved : Option BlockPostings :=
+        if mv == "D" then
+          some ((List.range (df1 / cfg.B + 2)).foldl (fun p _ => if p.docs.isEmpty then p else p.advance cfg) p0)
+        else if mv.startsWith "A" then
+          (mv.drop 1).toNat?.map (fun k => (List.range k).foldl (fun p _ => p.advance cfg) p0)
+        else if mv.startsWith "S" then
+          (mv.drop 1).toNat?.map (fun t => (p0.seek cfg t).1)
+        else none
+      match moved with
+      | some p =>
+        let r := BlockPostings.drain cfg (df2 / cfg.B + 2) (p.reset cfg df2 b2)
+        showNatList r.1 ++ "|" ++ showNatList (if hasFreq o then r.2 else r.1.map (fun _ => 1))
+      | none => "bad-op"
+    | _, _, _, _, _ => "bad-op"
   | ["tis_write", infos] =>
     match (if infos == "-" then some [] else (infos.splitOn ";").mapM parseTermInfo) with
     | some tis => (hexOfNats (TermInfoStore.storeBytes TermInfoStore.BLOCK_LEN tis)).getD "bad-op"
@@ -182,6 +222,8 @@ def handle : List String → String
     | _, _ => "bad-op"
   | ["invert", o, corpus] => handleInvert o corpus
   | ["invert", o] => handleInvert o ""
+  | ["pipeline", o, corpus] => handlePipeline o corpus
+  | ["pipeline", o] => handlePipeline o ""
   | _ => "bad-op"
 
 end TantivyModel.Driver.C07
